@@ -973,6 +973,15 @@ def hinge_rule(ctx):
             r.fail(f.qualname, f"hinge:dim{dim}:{'+'.join(free) or 'none'}", f.file, f.lineno, "Beam.add_connection_hinged", f"dim {dim}, free rotations {free}: the connection ties {tied}, expected {want}: rotations that should stay free are constrained (the hinge behaves as a fixed joint) or the reverse")
 
 
+def _num(c):
+    """an exact number out of a modelled value (constant polynomial, fraction, integer)"""
+    from ..alg import Poly
+
+    if isinstance(c, Poly):
+        return c.const_value() if c.is_const() else c
+    return Q(c) if isinstance(c, int) and not isinstance(c, bool) else c
+
+
 def connection_dofs_rule(ctx):
     """R4.14: 'multi-point (connection) constraints are satisfied exactly': Beam.add_connection(nodes, unknowns) ties, for every
     listed unknown, the dofs of THAT unknown at the two nodes: dof(node, unknown) = node * dof_n + index of the unknown in the
@@ -983,16 +992,17 @@ def connection_dofs_rule(ctx):
     repo = ctx.repo
     ci = repo.cls("EasyFEA.Simulations._beam.Beam")
     f = ci.methods["add_connection"]
-    r = ctx.rule("R4.14", "Beam.add_connection ties dof(node, unknown) = node * dof_n + index(unknown in the simulation's unknowns) for unknown lists in any order / any subset", min_instances=3)
+    r = ctx.rule("R4.14", "Beam.add_connection ties, for each listed unknown, the dofs dof(node, unknown) = node * dof_n + index(unknown) of ALL the given nodes (two, three or four members meeting at a joint) by n - 1 well-formed difference conditions, for unknown lists in any order / any subset", min_instances=5)
     allu = ["x", "y", "rz"]
-    nodes = XArray((2,), [4, 7], "i")
-    for unknowns in (["y", "rz"], ["rz"], ["y", "x"]):
+    for node_list, unknowns in (([4, 7], ["y", "rz"]), ([4, 7], ["rz"]), ([4, 7], ["y", "x"]), ([4, 7, 9], ["x", "y", "rz"]), ([9, 2, 7, 4], ["y"])):
+        nodes = XArray((len(node_list),), list(node_list), "i")
         r.instance(fn=f.qualname)
         got = []
 
         def hook(fn, args, kwargs, got=got):
             if getattr(fn, "name", "") == "LagrangeCondition" or (hasattr(fn, "qualname") and str(getattr(fn, "qualname", "")).endswith("LagrangeCondition")):
-                got.append((list(XArray.from_nested(args[2]).data), list(args[3])))
+                coefs = kwargs.get("lagrangeCoefs", args[5] if len(args) > 5 else None)
+                got.append((list(XArray.from_nested(args[2]).data), list(args[3]), None if coefs is None else [_num(c) for c in XArray.from_nested(coefs).data]))
                 return SimpleNamespace(kind="lagrange")
             fi = fn if isinstance(fn, FuncInfo) else getattr(fn, "finfo", None)
             if isinstance(fi, FuncInfo) and fi.module.name.startswith("EasyFEA.Utilities"):
@@ -1001,24 +1011,44 @@ def connection_dofs_rule(ctx):
 
         obj = XObj(ci, {"problemType": "beam", "Get_unknowns": lambda pt=None: list(allu), "Get_dof_n": lambda pt=None: 3, "_Check_dofs": lambda *a, **k: None,
                         "_Bc_Add_Lagrange": lambda bc: None, "_Bc_Add_Display": lambda *a, **k: None, "_verbosity": False, "mesh": SimpleNamespace(Nn=10),
-                        ci.mro[-2].mangle("__Check_problemTypes") if False else "_Simu__Check_problemTypes": lambda *a, **k: None})
+                        "_Simu__Check_problemTypes": lambda *a, **k: None})
         I = Interp(repo, extra_builtins={"Tic": lambda *a, **k: Sink()})
         I.call_hook = hook
+        tag = f"nodes {node_list}, unknowns {unknowns}"
         try:
             I.call_function(f, [nodes, list(unknowns), "test"], self_obj=obj)
         except XRaise as e:
-            r.fail(f.qualname, f"connection:{'+'.join(unknowns)}", f.file, f.lineno, "Beam.add_connection", f"unknowns {unknowns}: raises {e}")
+            r.fail(f.qualname, f"connection:{len(node_list)}:{'+'.join(unknowns)}", f.file, f.lineno, "Beam.add_connection", f"{tag}: raises {e}")
             continue
         bad = None
-        if len(got) != len(unknowns):
-            bad = f"{len(got)} conditions for {len(unknowns)} unknowns"
-        else:
-            for (dofs, names), u in zip(got, unknowns):
-                want = [int(n) * 3 + allu.index(u) for n in nodes.data]
-                if [int(x) for x in dofs] != want or list(names) != [u]:
-                    bad = f"the condition on '{u}' ties the dofs {[int(x) for x in dofs]} (named {list(names)}); dof(node, '{u}') of nodes {list(nodes.data)} are {want}"
-                    break
+        for u in unknowns:
+            conds = [(d, c) for d, names, c in got if list(names) == [u]]
+            want = {int(n) * 3 + allu.index(u) for n in node_list}
+            parent = {d: d for d in want}
+
+            def find(x):
+                while parent[x] != x:
+                    x = parent[x]
+                return x
+
+            for dofs, coefs in conds:
+                dofs = [int(x) for x in dofs]
+                if bad is None and not set(dofs) <= want:
+                    bad = f"a condition on '{u}' ties the dofs {dofs}; dof(node, '{u}') of the nodes are {sorted(want)}"
+                if bad is None and coefs is not None and len(coefs) != len(dofs):
+                    bad = f"a condition on '{u}' lists {len(dofs)} dofs {dofs} with {len(coefs)} coefficients {[str(c) for c in coefs]}: the multiplier row cannot be written (the solve raises)"
+                if bad is None and coefs is not None and (sum(coefs) != 0 or any(c == 0 for c in coefs)):
+                    bad = f"a condition on '{u}' has coefficients {[str(c) for c in coefs]}: not a difference of the tied dofs"
+                if bad is None:
+                    for d in dofs[1:]:
+                        parent[find(d)] = find(dofs[0])
+            if bad is None and len({find(d) for d in want}) != 1:
+                bad = f"the conditions on '{u}' leave the nodes {sorted(n for n in node_list if find(int(n) * 3 + allu.index(u)) != find(min(want)))} untied"
+            if bad is None and len(conds) != len(node_list) - 1:
+                bad = f"{len(conds)} conditions on '{u}' for {len(node_list)} nodes: {len(node_list) - 1} independent ones tie them (more make the bordered system singular)"
+        if bad is None and any(list(names) not in [[u] for u in unknowns] for _d, names, _c in got):
+            bad = "a condition on an unknown that was not requested"
         if bad:
-            r.fail(f.qualname, f"connection:{'+'.join(unknowns)}", f.file, f.lineno, "Beam.add_connection", f"add_connection(nodes (4, 7), {unknowns}) with simulation unknowns {allu}: {bad}: the requested multi-point constraint is not the one applied (another dof is tied, the requested one stays free)")
+            r.fail(f.qualname, f"connection:{len(node_list)}:{'+'.join(unknowns)}", f.file, f.lineno, "Beam.add_connection", f"add_connection({tag}) with simulation unknowns {allu}: {bad}: the requested multi-point constraint is not the one applied")
         else:
-            r.ok(f"unknowns {unknowns}: dof(node, unknown) by name")
+            r.ok(f"{tag}: every node tied by name, {len(node_list) - 1} condition(s) per unknown")
